@@ -167,24 +167,43 @@ def point(ds, ap, cfg_, reg, sc, cfgseed):
             pck = PlotfileCooker(ds)
     except Exception as e:
         return "opening raised %s: %s" % (type(e).__name__, str(e)[:160])
-    box = ap["levels"][ql]["boxes"][0]
-    shape = gamma.box_shape(box)
-    dx = gamma.level_dx(cfg_, 3, ql)
-    # interior cells of the box (one cell away from its faces) that the next level does not cover (it covers the first two
-    # cells of the box along every axis, i.e. 2 * r cells of its own)
-    cells = [c for c in itertools.product(*[range(1, n - 1) for n in shape])
-             if ql == len(rs) or any(k >= 2 for k in c)]
-    if not cells:
+    # interior cells of a level's box (one cell away from its faces) that the next level does not cover (it covers the first
+    # two cells of the box along every axis, i.e. 2 * r cells of its own)
+    def cells_of(lv):
+        shp = gamma.box_shape(ap["levels"][lv]["boxes"][0])
+        cs = [c for c in itertools.product(*[range(1, n - 1) for n in shp]) if lv == len(rs) or any(k >= 2 for k in c)]
+        rng.shuffle(cs)
+        return cs
+    # queries at the scenario's level interleaved with queries at the OTHER levels; half of the scenarios ask them all of ONE
+    # selector object per selection (every level has a single box, box number 0: what a selector keeps from one query --
+    # a box, its indices, a level -- must not reach the next one)
+    asks = []
+    for n, c in enumerate(cells_of(ql)[:6]):
+        asks.append((ql, c))
+        other = (ql + 1 + n) % (len(rs) + 1)
+        oc = cells_of(other)
+        if other != ql and oc:
+            asks.append((other, oc[0]))
+    if not asks:
         return None
-    rng.shuffle(cells)
     sels = ["v", ["u", "w"], 0, [0, 1, 2]]
-    for n, c in enumerate(cells[:6]):
-        sel = sels[(cfgseed + n) % len(sels)]
+    keep = cfgseed % 2 == 0
+    probes = {}
+    for n, (ql, c) in enumerate(asks):
+        box = ap["levels"][ql]["boxes"][0]
+        shape = gamma.box_shape(box)
+        dx = gamma.level_dx(cfg_, 3, ql)
+        sel = sels[(cfgseed + n // 3) % len(sels)]
         idx = [box["lo"][d] + c[d] for d in range(3)]
         pt = [cfg_.origin[d] + dx[d] * (idx[d] + 0.5) for d in range(3)]
         try:
             with shims.pool_shim(shims.Scheduler()), core.quiet():
-                got = pck[sel](*pt)
+                if keep:
+                    if repr(sel) not in probes:
+                        probes[repr(sel)] = pck[sel]
+                    got = probes[repr(sel)](*pt)
+                else:
+                    got = pck[sel](*pt)
         except Exception as e:
             return "query %r at the centre of level-%d cell %r raised %s: %s" % (sel, ql, idx, type(e).__name__, str(e)[:150])
         names = sel if isinstance(sel, list) else [sel]
@@ -196,8 +215,8 @@ def point(ds, ap, cfg_, reg, sc, cfgseed):
             arr = reg.array_of(("A", ql, 1, fi)).reshape(shape, order="F")
             want = float(arr[tuple(c)])
             if not abs(g - want) <= 1e-9 * float(np.max(np.abs(arr))):
-                return "query %r at the centre of level-%d cell %r (finest level covering it, interior of its box): %r, stored value %r" % (
-                    sel, ql, idx, float(g), want)
+                return "query %d (%r%s) at the centre of level-%d cell %r (finest level covering it, interior of its box): %r, stored value %r" % (
+                    n + 1, sel, ", one selector object for all queries" if keep else "", ql, idx, float(g), want)
     # a point outside the domain is refused
     lo, hi = gamma.geo(ap, cfg_)
     out = [hi[d] + 3.0 * cfg_.dx0[d] if d == cfgseed % 3 else 0.5 * (lo[d] + hi[d]) for d in range(3)]
